@@ -16,10 +16,11 @@ CONSTANTS MaxLen,        \* longest enumerated token sequence
           Wide           \* TRUE: the larger alphabet
 
 CS == Op("CS")  CSV == Op("CSV")  CMS == Op("CMS")  CMSV == Op("CMSV")
-\* a push whose data bytes are CHECKSIG CHECKMULTISIG opcodes, a push of a 1-byte number (looks like OP_3 to a careless reader)
+\* a push whose data bytes are CHECKSIG CHECKMULTISIG opcodes; (wide alphabet) a push whose single data byte is the OP_3 opcode: a
+\* following CHECKMULTISIG counts 20, the previous opcode being the push
 PushSigs == Push(<<CS, CMS>>)
 Alphabet == {CS, CMS, Num(0), Num(3), Num(16), PushSigs, Op("RET"), Trunc(<<CS, CS>>, "min")}
-            \cup (IF Wide THEN {CSV, CMSV, Num(1), Op("NEG1"), Op("NOP"), PushB(<<3>>), Trunc(<<CMS>>, "pd1")} ELSE {})
+            \cup (IF Wide THEN {CSV, CMSV, Num(1), Op("NEG1"), Op("NOP"), Push(<<Num(3)>>), Trunc(<<CMS>>, "pd1")} ELSE {})
 Seqs == UNION {[1..k -> Alphabet] : k \in 0..MaxLen}
 \* a truncated push swallows the rest of the script, so it can only be the last token
 WellFormed(s) == \A i \in 1..Len(s) : s[i].t = "TRUNC" => i = Len(s)
